@@ -41,7 +41,7 @@ theorem lawful_decide [DecidableEq K] : LawfulEq (EqTests.decide K) :=
 theorem restoreRow_self (E : EqTests K) (hE : LawfulEq E) (cfg : RouteCfg) (dflt : Lut K)
     (p : String × PRow K)
     (h : (match dflt.find? p.1 with
-      | some d => (cfg.keepsModifiedDefault || E.entry p.2.e d) && cfg.dfltRowCanon.apply p.2.canon == p.2.canon
+      | some d => (keepsRow cfg p.2.e d || E.entry p.2.e d) && cfg.dfltRowCanon.apply p.2.canon == p.2.canon
       | none => cfg.keepsAdded && cfg.userRowCanon.apply p.2.canon == p.2.canon) = true) :
     restoreRow cfg dflt p = some p := by
   obtain ⟨k, e, c⟩ := p
@@ -53,8 +53,8 @@ theorem restoreRow_self (E : EqTests K) (hE : LawfulEq E) (cfg : RouteCfg) (dflt
   | some d =>
     simp only [hd, Bool.and_eq_true, Bool.or_eq_true, beq_iff_eq] at h
     obtain ⟨h1, h2⟩ := h
-    cases hk : cfg.keepsModifiedDefault with
-    | true => simp [h2]
+    cases hk : keepsRow cfg e d with
+    | true => simp [h2, hk]
     | false =>
       have : e = d := hE.entry e d (by simpa [hk] using h1)
       simp [h2, this]
@@ -143,11 +143,12 @@ theorem hasKey_map_eraseRow (t : PLut K) (k : String) : PLut.hasKey (t.map erase
 
 theorem restoreRow_erase (cfg : RouteCfg) (dflt : Lut K) (p : String × PRow K) :
     (restoreRow cfg dflt p).map eraseRow = (restoreRow (keepIdentity cfg) dflt p).map eraseRow := by
-  obtain ⟨a1, a2, a3, a4, a5, a6, a7, a8, a9, a10, a11, a12, a13, a14⟩ := cfg
-  simp only [restoreRow, keepIdentity]
+  have hk : ∀ e d : Entry K, keepsRow (keepIdentity cfg) e d = keepsRow cfg e d := fun _ _ => rfl
+  simp only [restoreRow, hk]
+  have ha : (keepIdentity cfg).keepsAdded = cfg.keepsAdded := rfl
   cases dflt.find? p.1 with
-  | none => cases a9 <;> simp [eraseRow]
-  | some d => cases a10 <;> simp [eraseRow]
+  | none => rw [ha]; cases cfg.keepsAdded <;> simp [eraseRow]
+  | some d => simp [eraseRow]
 
 theorem filterMap_map_congr {α β : Type} (f g : α → Option α) (h : α → β) (l : List α)
     (hfg : ∀ a, (f a).map h = (g a).map h) : (l.filterMap f).map h = (l.filterMap g).map h := by
